@@ -464,6 +464,11 @@ func marshalBody(fset *token.FileSet, stmts []ast.Stmt, c *jCmd, vars map[string
 			out = append(out, jStmt{Op: "u8", Blk: blkOf(m[1], m[2], fset, st), F: m[3], Line: line})
 			continue
 		}
+		// raw = append(raw, 0x00, 0x00): literal zero bytes (the terminator of a null-terminated string)
+		if m := regexp.MustCompile(`^raw(Parameters|Data)Content = append\(raw(Parameters|Data)Content, ((?:0x00|0)(?:, (?:0x00|0))*)\)$`).FindStringSubmatch(s); m != nil {
+			out = append(out, jStmt{Op: "zeros", Blk: blkOf(m[1], m[2], fset, st), K: len(strings.Split(m[3], ", ")), Line: line})
+			continue
+		}
 		if m := reSubM.FindStringSubmatch(s); m != nil {
 			if i+1 >= len(stmts) || src(fset, stmts[i+1]) != errCheckM {
 				fail(fset, st, "result of %s.Marshal() is not followed by the error check", m[2])
@@ -1043,6 +1048,8 @@ func leanStmt(s jStmt, marshal bool) string {
 		return fmt.Sprintf(".%s .%s %s", s.Op, s.Blk, q(s.F))
 	case "sub", "forSub":
 		return fmt.Sprintf(".%s .%s %s %s", s.Op, s.Blk, q(s.F), q(s.Typ))
+	case "zeros":
+		return fmt.Sprintf(".zeros .%s %d", s.Blk, s.K)
 	case "setFmt":
 		return fmt.Sprintf(".setFmt %s %d", q(s.F), s.K)
 	case "assignLen":
